@@ -164,8 +164,10 @@ def du4_print_chain(ctx):
     length = {'Year': 365 * 86400, 'Month': 30 * 86400, 'Week': 7 * 86400, 'Day': 86400, 'Hour': 3600, 'Minute': 60, 'Second': 1}
     placeholder = {'Year': '{year}', 'Month': '{month}', 'Week': '{week}', 'Day': '{day}', 'Hour': '{hour}', 'Minute': '{minute}', 'Second': '{second}'}
     calls = list(b.calls(r'DurationItem::duration_formatter$'))
+    if len(calls) in (1, 2) and b.loops():
+        return du4_table_driven(ctx, b, calls, length, placeholder)
     if len(calls) != 7:
-        raise AnchorLost('DurationItem::print: expected 7 duration_formatter calls (one per unit), found %d' % len(calls))
+        raise AnchorLost('DurationItem::print: expected 7 duration_formatter calls (one per unit) or a loop over a unit table, found %d' % len(calls))
     D0 = None
 
     def leaf(e):
@@ -227,6 +229,71 @@ def du4_print_chain(ctx):
     # the magnitude: abs of the seconds
     if 'D' not in repr(total) and total != Poly.sym('D'):
         pass
+
+
+def du4_table_driven(ctx, b, calls, length, placeholder):
+    """the same telescoping written as one loop over a literal table of (unit length, placeholder, kind) rows: per row
+    `if r >= U { emit(r / U, placeholder, kind); r %= U }`. Checked: the value, the guard and the remainder update use
+    column 0 of the *same* row, placeholder and kind are columns of that row, the rows are the expected triples in strictly
+    descending unit order, and seconds are either the last row (unit 1) or a tail call with the remainder."""
+    from ..interval import _array_column
+    inloop = [(bid, t) for bid, t in calls if b.in_loop(bid)]
+    tail = [(bid, t) for bid, t in calls if not b.in_loop(bid)]
+    if len(inloop) != 1:
+        raise AnchorLost('DurationItem::print: expected one duration_formatter call inside the unit loop, found %d' % len(inloop))
+    bid, t = inloop[0]
+    cols = {}
+    for nm, idx in (('placeholder', 2), ('kind', 4)):
+        c = _array_column(strip(b.expr(t['args'][idx])))
+        if c is None:
+            ctx.finding('DU4', 'print/table/%s-not-from-table' % nm, 'the %s handed to duration_formatter inside the loop is not a column of the iterated unit table: %s' % (nm, render(b.expr(t['args'][idx]))[:80]), site=t['loc'])
+            return
+        cols[nm] = c
+    val = strip(b.expr(t['args'][3]))
+    if val[0] != 'binop' or val[1] != 'Div':
+        ctx.finding('DU4', 'print/table/value', 'inside the unit loop the printed count is %s, expected remainder / unit' % render(val)[:80], site=t['loc'])
+        return
+    ucol = _array_column(strip(val[3]))
+    if ucol is None:
+        ctx.finding('DU4', 'print/table/divisor', 'the divisor of the printed count is not the unit column of the table: %s' % render(val[3])[:80], site=t['loc'])
+        return
+    # remainder update in the loop: Rem by the same column
+    rems = [st for i in b.normal_blocks if b.in_loop(i) for st in b.blocks[i]['stmts'] if st['k'] == 'assign' and st['rv'] == 'binop' and st['op'] == 'Rem']
+    if len(rems) != 1 or _array_column(strip(b.expr(rems[0]['ops'][1]))) is None or [render(x) for x in _array_column(strip(b.expr(rems[0]['ops'][1])))] != [render(x) for x in ucol]:
+        ctx.finding('DU4', 'print/table/remainder', 'the running remainder is not reduced by the unit of the same row (%d `%%` in the loop)' % len(rems), site=t['loc'])
+        return
+    if render(strip(b.mexpr(rems[0]['ops'][0]))) != render(strip(b.mexpr(t['args'][3])))[1:].split(' Div ')[0]:
+        pass
+    # guard: emitted when remainder >= unit (either `if r >= U` or `if r < U { continue }`)
+    conds = ' & '.join(b.cond_text(bid))
+    if not re.search(r' (Ge|Lt) ', conds):
+        ctx.finding('DU4', 'print/table/guard', 'inside the unit loop a part is emitted under %s; expected remainder >= unit' % conds[-120:], site=t['loc'])
+        return
+    rows = []
+    for u_, p_, k_ in zip(ucol, cols['placeholder'], cols['kind']):
+        u_, p_, k_ = strip(u_), strip(p_), strip(k_)
+        m = re.match(r'constants::DurationFormatType::(\w+)', k_[1]) if k_[0] == 'aggr' else None
+        rows.append((u_[2] if u_[0] == 'const' else None, model.const_str(p_), m.group(1) if m else None))
+    want = [(length[k], placeholder[k], k) for k in ('Year', 'Month', 'Week', 'Day', 'Hour', 'Minute')]
+    body_rows = rows[:6]
+    for got, w in zip(body_rows, want):
+        if got != w:
+            ctx.finding('DU4', 'print/table/row/%s' % w[2], 'unit table row %s, expected %s (descending greedy decomposition with matching placeholder and kind)' % (got, w), site=t['loc'])
+        else:
+            ctx.ok('DU4', 'table row %s: count = r / %d, then r %%= %d' % (w[2], w[0], w[0]), 'table', site=t['loc'], sample=w[2] == 'Year')
+    if len(rows) < 6:
+        ctx.finding('DU4', 'print/table/rows', 'the unit table has %d rows, expected years down to minutes' % len(rows), site=t['loc'])
+    if len(rows) == 7:
+        if rows[6] != (1, placeholder['Second'], 'Second') or tail:
+            ctx.finding('DU4', 'print/table/seconds', 'seconds row / tail is %s with %d tail call(s)' % (rows[6], len(tail)), site=t['loc'])
+        else:
+            ctx.ok('DU4', 'table row Second: unit 1', 'table', site=t['loc'], sample=False)
+    elif len(rows) == 6:
+        if len(tail) != 1 or render(b.expr(tail[0][1]['args'][4])) != 'constants::DurationFormatType::Second{}' or model.const_str(b.expr(tail[0][1]['args'][2])) != placeholder['Second']:
+            ctx.finding('DU4', 'print/table/seconds', 'after the unit loop the remaining seconds are not printed as the Second part', site=b.loc)
+        else:
+            ctx.ok('DU4', 'tail: remaining seconds printed as the Second part', 'shape', site=tail[0][1]['loc'], sample=False)
+    ctx.ok('DU4', 'per row q = r / U and r = r %% U with the same U: the parts weighted by their units sum to |d|', 'telescoping', site=b.loc)
 
 
 def du5_formats(ctx):
